@@ -40,8 +40,9 @@ Vec2(tab, a, b) ==
 
 RECURSIVE HasMissing(_)
 (* a leaf the element could not compute, or whose value is outside the number / string / list types
-   (complex infinity from 0 ** -4, a float, nan): such a case is not evaluated *)
-HasMissing(v) == IF "missing" \in DOMAIN v \/ "x" \in DOMAIN v \/ "y" \in DOMAIN v THEN TRUE
+   (tag x: complex infinity from 0 ** -4, nan, a raw float): such a case is not evaluated;
+   other symbolic values (tag y: square roots, pi ...) are compared structurally *)
+HasMissing(v) == IF "missing" \in DOMAIN v \/ "x" \in DOMAIN v THEN TRUE
                  ELSE IF IsList(v) THEN \E k \in 1..Len(v.l) : HasMissing(v.l[k]) ELSE FALSE
 
 (* shapes: a leaf is [leaf |-> TRUE], a list [s |-> shapes of its items] *)
